@@ -345,6 +345,9 @@ pub trait Sut: Send {
     fn load_json(&self, text: &str) -> Result<Box<dyn Sut>, String>;
     fn display(&self) -> String;
     fn debug(&self) -> String;
+    /// Display and Debug through the other paths of `std::fmt`: width, fill, alignment, precision, sign and
+    /// zero-padding flags, and pretty Debug; returns the total length (the text itself is not judged)
+    fn format_variants(&self, with_debug: bool) -> usize;
     fn period(&self) -> Option<usize>;
     fn multiplier(&self) -> Option<f64>;
 }
@@ -443,6 +446,16 @@ impl<I: Ind> Sut for W<I> {
     }
     fn debug(&self) -> String {
         format!("{:?}", self.0)
+    }
+    fn format_variants(&self, with_debug: bool) -> usize {
+        let i = &self.0;
+        let d = format!("{:>1}|{:>16}|{:<40}|{:^7}|{:*^25}|{:08}|{:.2}|{:+}|{:>3.1}", i, i, i, i, i, i, i, i, i).len();
+        // Debug prints the whole window: the pretty and padded forms only now and then
+        if with_debug {
+            d + format!("{:#?}|{:10?}", i, i).len()
+        } else {
+            d
+        }
     }
     fn period(&self) -> Option<usize> {
         self.0.per()
